@@ -246,6 +246,13 @@ func parentMain() {
 		r.Floor(c.Name+".kind.remaining", 100)
 		r.Floor(c.Name+".exact_ok_reencoded", 100)
 		r.Floor(c.Name+".short_buffer", 100)
+		// aliasing oracles: decoded values outlive the input buffer, encodings and objects are disjoint
+		r.Floor(c.Name+".decode_alias_checked", 100)
+		r.Floor(c.Name+".exact_alias_checked", 100)
+		r.Floor(c.Name+".encode_alias_checked", int64(cfg.valuesPerCodec/3))
+		if r.Get(c.Name+".scribble_restore_mismatch") > 0 {
+			r.Inconclusive("harness in-place rewrite of a value is not an involution for " + c.Name)
+		}
 		if p.bools > 0 {
 			r.Floor(c.Name+".kind.invalid_bool", 10)
 		}
@@ -284,7 +291,7 @@ func parentMain() {
 
 	r.Finish("For each of the 29 generated codecs: type-directed values (extreme integers, nil/empty slices, lengths 0,1,2,..., maxlen-1/maxlen/maxlen+1 on every limited field, long slices) are encoded by both encoders; "+
 		"every reference encoding is mutated (all truncations <=512, extensions, length-prefix edits incl. 2^31 and 2^32-1, bit flips, splices) and random strings are added; "+
-		"each byte string is decoded by both decoders in a child process (inputs logged first). A case is non-trivial when it is a distinct (codec, mutation, reference outcome, exact outcome, length) class.",
+		"each byte string is decoded by both decoders in a child process (inputs logged first); every generated decode reads a private scratch copy of the input (with guard bytes behind it) that must be left untouched and is overwritten afterwards, after which the decoded value must still equal the reference value and re-encode to the same bytes; after encoding, the object is rewritten in place (encoded bytes must not change) and the encoded bytes are rewritten (the object must not change). A case is non-trivial when it is a distinct (codec, mutation, reference outcome, exact outcome, length) class.",
 		"the reflection-based encoder (encoder.Serialize/Size/DeserializeRaw/DeserializeRawExact) is the reference; its sentinel errors define the failure kinds",
 		"maximum-length enforcement on the encode side is compared with the reference reading back its own serialization (the reference documents that it does not check maxlen when serializing)",
 		"values are finite samples of the type-directed generator; byte strings are samples around valid encodings plus random strings",
